@@ -62,6 +62,12 @@ void gc_struct_set_field(GCStruct* s, int field_index,
     assert(s != NULL && "GC: NULL struct");
     assert(field_index >= 0 && field_index < s->field_count && "GC: Field index out of bounds");
     
+    /* Retain the new value first: it may be reachable only through the old one
+     * (x.f = x.f, or a child of the old value) */
+    if (is_gc_object && value) {
+        gc_retain(value);
+    }
+
     /* If old field was a GC object, release it */
     if (s->field_gc_flags[field_index] && s->field_values[field_index]) {
         gc_release(s->field_values[field_index]);
@@ -76,11 +82,6 @@ void gc_struct_set_field(GCStruct* s, int field_index,
     s->field_values[field_index] = value;
     s->field_gc_flags[field_index] = is_gc_object ? 1 : 0;
     s->field_types[field_index] = (uint8_t)type;
-    
-    /* If new field is a GC object, retain it */
-    if (is_gc_object && value) {
-        gc_retain(value);
-    }
 }
 
 /* Get field value */
